@@ -231,9 +231,11 @@ ALPHA_C19 = [
     "\u0301\u200b\u200d\u202e\ufeff\u00a0\u212b\ufb01\U0001f600\u0130\u00df\u0131",
 ]
 ALPHA_BENIGN = ["abcdefghijklmnopqrstuvwxyz0123456789", "@.-_"]
+TAG_LIKE = [":contains", ":is", ":matches", ":notis", ":over", ":copy", ":regex", ":value", ":zone", "gt", "date"]
+ADDRESS_LIKE = ['mailto:"john doe"@example.com', "mailto:a@b.c", 'MAILTO:"x"@y', '<"q"@example.org>', 'sip:"x"', 'x"@y']
 NEAR_KEYWORDS = ["notes", "not", "nothing-special", "notification-id", "sizeable", "exists-x", "bodyguard", "truefalse", "x-envelope", "Not", "NOTE"]
-WHOLE_C06 = NEAR_KEYWORDS + ["", 'a"b', "a\\", "\\Seen", 'x", "y', 'a" :is "b', "] [", "a,b", 'say "hi"', "\\\\", 'end\\', "a\nb", "text:", "#c", "a;b", "{x}", "q'"]
-WHOLE_C19 = NEAR_KEYWORDS + ["", "a,b", "a, b", "[x]", "x]", "[", "a b", "é,ü", ",", "a,", ",a", "list-id", "a,b,c"]
+WHOLE_C06 = NEAR_KEYWORDS + TAG_LIKE + ADDRESS_LIKE + ["", 'a"b', "a\\", "\\Seen", 'x", "y', 'a" :is "b', "] [", "a,b", 'say "hi"', "\\\\", 'end\\', "a\nb", "text:", "#c", "a;b", "{x}", "q'"]
+WHOLE_C19 = NEAR_KEYWORDS + TAG_LIKE + ["", "a,b", "a, b", "[x]", "x]", "[", "a b", "é,ü", ",", "a,", ",a", "list-id", "a,b,c"]
 
 
 class DefGen:
@@ -252,11 +254,17 @@ class DefGen:
         else:
             alpha = ALPHA_C06 if self.profile == "c06" else ALPHA_C19
             whole = WHOLE_C06 if self.profile == "c06" else WHOLE_C19
-            k = f.weighted(label + ".k", [3, 3, 2])
+            k = f.weighted(label + ".k", [6, 6, 4, 1])
             if k == 0:
                 v = f.text(label, ALPHA_BENIGN, 6, 1)
             elif k == 1:
                 v = f.text(label, alpha, 8, 1)
+            elif k == 3:
+                # a long value with a special character on or next to a round length (limits, truncation, folding)
+                n = [72, 76, 255, 256, 257, 998, 1023, 1024, 1025][f.int(label + ".L", 9)]
+                sp = alpha[1 + f.int(label + ".sc", len(alpha) - 1)]
+                ch = sp[f.int(label + ".sch", len(sp))]
+                v = "x" * (n - 1 - f.int(label + ".off", 3)) + ch + "tail"
             else:
                 v = whole[f.int(label + ".w", len(whole))]
             if v[:1] in ('"', "'"):
